@@ -397,3 +397,15 @@ package nodenumaresource
 //@   ensures #once: calls("release") == 1 && calls("update") == 0
 //@   ensures #gone: c.nodeAllocations[nodeName] != nil && !has(c.nodeAllocations[nodeName].allocatedPods, podUID)
 //@   ensures #inv: rmOK(c)
+
+// ==== Property C19 (write side of the resource-spec annotation) ====
+// PreBind fills in the bind policy the scheduler decided and writes the spec back. What is written is the very spec that
+// was decoded from the object (so every field the restart replay reads back - the exclusive policy in particular - is
+// the one the pod carried), with only the two bind-policy fields possibly changed.
+//@ func appendResourceSpecIfMissed [C19]
+//@   requires object != nil && state != nil
+//@   assert before call SetResourceSpec: #same: $arg0 == object && $arg1 != nil && $arg1 == lastresult("GetResourceSpec", 0)
+//@   ensures #once: calls("SetResourceSpec") <= 1 && calls("GetResourceSpec") <= 1
+//@   ensures #err: lastresult("getCPUBindPolicy", 2) != nil ==> calls("SetResourceSpec") == 0 && result == lastresult("getCPUBindPolicy", 2)
+// (allmaps names the family of string maps through an expression of that type: the annotation map of the object is written)
+//@   modifies all(extension.ResourceSpec).RequiredCPUBindPolicy, all(extension.ResourceSpec).PreferredCPUBindPolicy, allmaps(node.ObjectMeta.Annotations)
